@@ -513,6 +513,27 @@ def c17(res, scenario) -> list[Violation]:
             len(executed) < upto and not any(e[1] in ("cb_raise", "interrupt", "savecond_raise") for e in ev) \
             and scenario.get("max_uptime", "inf") == "inf":
         out.append(Violation("c17:lost", f"accepted {accepted[:upto]} but executed only {executed}", case))
+    # "executed" means carried out: every command the control thread takes off the queue is followed -
+    # before it takes the next one or the tick ends - by the call that carries it out
+    CALL = {"PAUSE": "try_pause_call", "RESUME": "resume_call", "SAVE_STATE": "save_state_call",
+            "SHUTDOWN": "shutdown_call"}
+    pending_cmd = None
+    for i, (th, kind, obj, val) in enumerate(ev):
+        if th != "control":
+            continue
+        if pending_cmd is not None:
+            name, j = pending_cmd
+            if kind == CALL[name]:
+                pending_cmd = None
+            elif kind in ("cmd_exec", "loop_sleep", "uptime_check", "uptime_reached"):
+                out.append(Violation("c17:dequeued-not-executed",
+                                     f"{name} was taken off the queue (event {j}) but never carried out: the "
+                                     f"control thread went on to {kind} {obj}".rstrip(), case))
+                pending_cmd = None
+            elif kind in ("interrupt", "cb_raise"):
+                pending_cmd = None
+        if kind == "cmd_exec" and obj in CALL:
+            pending_cmd = (obj, i)
     # http codes
     routes = {("GET", "/api/status"), ("POST", "/api/pause"), ("POST", "/api/resume"),
               ("POST", "/api/shutdown"), ("POST", "/api/save-state")}
@@ -548,8 +569,11 @@ def c17(res, scenario) -> list[Violation]:
                     ok = any(status_table(h[0], h[1], list(h[2])) == reply for h in hist[lo:i + 1])
                     if not ok:
                         seq = sorted({status_table(h[0], h[1], list(h[2])) for h in hist[lo:i + 1]})
+                        # nothing changed during the request: not a matter of when the reads happened - the
+                        # answer contradicts the decision table itself
+                        sig = "table" if len(set(hist[lo:i + 1])) == 1 else read_signature(ev, lo, i)
                         out.append(Violation(
-                            f"c17:status-{read_signature(ev, lo, i)}:{STATUS.get(reply, reply)}-never-true",
+                            f"c17:status-{sig}:{STATUS.get(reply, reply)}-never-true",
                             f"status request (events {lo}..{i}) answered {STATUS.get(reply, reply)} but the "
                             f"flags only ever mapped to {[STATUS[s] for s in seq]} during the request", case))
                 elif method == "POST" and status not in (200, 503):
